@@ -1,0 +1,43 @@
+//go:build verif
+
+// Contracts for package util (comment-only; compiled only with the build tag "verif",
+// read by /verif/engine). Properties C11, C06: the synchronised map the notification queue and the
+// log cache keep their per-table / per-shard objects in. Bodies are verified once for opaque K, V.
+// Besides what is written here every function carries the automatic lock obligations
+// (locks:balanced, locks:iter): no path returns, or goes around a loop, holding the map's mutex.
+
+package util
+
+//@ func yieldAny
+//@   assumed
+//@   modifies nothing
+//@ func defaultAny
+//@   assumed
+//@   modifies nothing
+
+//@ func (*SyncMap).Values$1
+//@   functype yield yieldAny
+//@   requires *s != nil && yield != nil
+//@   modifies nothing
+//@   loop 0 invariant *s != nil && yield != nil
+//@ func (*SyncMap).Keys$1
+//@   functype yield yieldAny
+//@   requires *s != nil && yield != nil
+//@   modifies nothing
+//@   loop 0 invariant *s != nil && yield != nil
+//@ func (*SyncMap).Store
+//@   requires s != nil && s.m != nil
+//@   ensures [C11.syncmap.store] has(s.m, key) && s.m[key] == val
+//@   modifies elems(s.m)
+//@ func (*SyncMap).Delete
+//@   requires s != nil
+//@   ensures [C06.syncmap.delete] !has(s.m, key)
+//@   modifies elems(s.m)
+//@ func (*SyncMap).Load
+//@   functype SyncMap.defaultFunc defaultAny
+//@   results v, ok
+//@   requires s != nil && s.m != nil
+//@   ensures [C11.syncmap.load] ok ==> has(s.m, key) && s.m[key] == v
+//@   ensures [C11.syncmap.default] s.defaultFunc != nil ==> ok
+//@   ensures [C11.syncmap.keep] old(has(s.m, key)) ==> s.m[key] == old(s.m[key])
+//@   modifies elems(s.m)
